@@ -238,7 +238,7 @@ def corr_paths(model, r, n) -> dict:
 
 # ---- config text
 
-PATTERN_WORDS = ["git", "status", "push", "rm", "-rf", "*", "foo*", "ls", "/tmp/x", "~/bin/tool", "./run.sh", "src/*.py", "a?c", "[ab]z", "--force", "npm", "run", "x=1", "'q'", 'a"b', "é", "**"]
+PATTERN_WORDS = ["git", "status", "push", "rm", "-rf", "*", "foo*", "ls", "/tmp/x", "~/bin/tool", "./run.sh", "src/*.py", "a?c", "[ab]z", "--force", "npm", "run", "x=1", "'q'", 'a"b', "é", "**", "/var/**/[z-a]*", "**/[9-0]x", "/x/**/[a-]", "[z-a]", "/tmp/**/[!b-a]"]
 MESSAGES = ["no", "use trash instead", 'say \\"hi\\"', "back\\\\slash", "", "tab\there", "ünï", 'a "quoted" b', "trailing\\", "x|y", "#not comment"]
 DIRECTIVES = ["allow", "ask", "deny", "allow-redirect", "ask-redirect", "deny-redirect", "after", "allow-mcp", "ask-mcp", "deny-mcp", "after-mcp"]
 WS = [" ", "  ", "\t", " \t "]
